@@ -86,6 +86,19 @@ CHECKS = {
                      'shuffled chunk entries, empty files) / replicat restores',
                 note='reference reader/writer written from the documented scheme, import nothing from replicat',
                 technique='exhaustive configuration enumeration against an independent format implementation'),
+    'C15': dict(cat='model_checking', ref='2/C15', engine='E2',
+                text='all histories of <=3 snapshots over paths whose versions appear/change/disappear x chronological and reverse '
+                     'creation order x 3 microsecond patterns x {unencrypted, encrypted}: restore under every snapshot filter x file '
+                     'filter against the reference selection (newest matching snapshot containing the path), listings under column '
+                     'subsets against the ledger, every printed snapshot name fed back to delete',
+                note='distinct timestamps; atime and chunk-count columns not modelled', technique='exhaustive history enumeration against a reference model'),
+    'C17': dict(cat='exploration', ref='2/C17', engine='E3',
+                text='148 settings deviations (every primitive name right/wrong/unknown x parameter values on both sides of every limit, '
+                     'mistyped, unknown keys, structure) singly and in all cross-section pairs, plus long passwords: accepted => a fresh '
+                     'process unlocks, snapshots and restores a multi-chunk tree and no near-miss password unlocks; rejected => nothing '
+                     'stored; add-key with every KDF variant',
+                note='default scrypt cost lowered to n=16 in the harness for cases leaving the KDF at its default',
+                technique='exhaustive configuration enumeration (all single and pairwise deviations)'),
 }
 NOT_YET = {}
 
@@ -122,11 +135,11 @@ m = {
     'engines': [
         {'name': 'E1', 'path': 'mc/dsched.py + mc/explore.py', 'serves_properties': ['C09', 'C02', 'C03'],
          'kind_free_text': 'deterministic scheduler for real threads + virtual asyncio loop; deviation-bounded stateless explorer'},
-        {'name': 'E2', 'path': 'mc/hist.py', 'serves_properties': ['C02', 'C06', 'C07', 'C08'],
+        {'name': 'E2', 'path': 'mc/hist.py', 'serves_properties': ['C02', 'C06', 'C07', 'C08', 'C15'],
          'kind_free_text': 'explicit-state BFS over command histories; transitions run the real commands with fresh Repository objects'},
         {'name': 'E3+E1', 'path': 'checks/C14.py', 'serves_properties': ['C14'], 'kind_free_text': 'product enumeration + completion-order exploration'},
         {'name': 'E2+E1', 'path': 'mc/hist.py + mc/explore.py', 'serves_properties': ['C02'], 'kind_free_text': 'both'},
-        {'name': 'E3', 'path': 'mc/common.py (pmap) + per-check menus', 'serves_properties': ['C01', 'C04', 'C05', 'C10', 'C11', 'C14'],
+        {'name': 'E3', 'path': 'mc/common.py (pmap) + per-check menus', 'serves_properties': ['C01', 'C04', 'C05', 'C10', 'C11', 'C14', 'C17'],
          'kind_free_text': 'complete product enumeration of small menus, sharded over 16 processes'},
     ],
     'checks': checks,
